@@ -250,8 +250,133 @@ func checkC19(c *Ctx, p *Prog, r *Result) {
 	// one reviewed exception, identified structurally: the Read method's load of
 	// the guarded error field
 	exceptionReason := "read after the receive on the wake-up channel observed its close: the error is assigned under the mutex before that channel is closed, and never afterwards"
-	isException := func(fn *ssa.Function, fld string) bool {
-		return fn.Name() == "Read" && errField[fld]
+	// the exception is granted only while its reason is visible in the code:
+	// (1) every close of a channel field of the struct is preceded, in the
+	// same function, by a store to the error field; (2) every store to the
+	// error field is followed by such a close (closing twice panics, so nothing
+	// is stored after the close); (3) the unlocked load is dominated by the
+	// not-ok edge of a receive on that channel.
+	instrBefore := func(a, b ssa.Instruction) bool {
+		if a.Block() != b.Block() {
+			return a.Block().Dominates(b.Block())
+		}
+		for _, in := range a.Block().Instrs {
+			if in == a {
+				return true
+			}
+			if in == b {
+				return false
+			}
+		}
+		return false
+	}
+	publishOrder := map[string]string{} // error field -> "" if the order holds, else what is wrong
+	publishChecked := func(fld string) string {
+		if v, ok := publishOrder[fld]; ok {
+			return v
+		}
+		owner := fld[:strings.LastIndex(fld, ".")]
+		bad := ""
+		nClose := 0
+		for _, fn := range p.Funcs {
+			if funcPkgPath(fn) != modulePath+"/serviceinfo" {
+				continue
+			}
+			var stores, closes []ssa.Instruction
+			for _, b := range fn.Blocks {
+				for _, in := range b.Instrs {
+					switch x := in.(type) {
+					case *ssa.Store:
+						if fa, ok := x.Addr.(*ssa.FieldAddr); ok && fieldName(fa.X.Type(), fa.Field) == fld {
+							if _, fresh := fa.X.(*ssa.Alloc); !fresh {
+								stores = append(stores, x)
+							}
+						}
+					case *ssa.Call:
+						if bi, isB := x.Call.Value.(*ssa.Builtin); isB && bi.Name() == "close" {
+							if fa, ok := loadOf(x.Call.Args[0]).(*ssa.FieldAddr); ok && strings.HasPrefix(fieldName(fa.X.Type(), fa.Field), owner+".") {
+								closes = append(closes, x)
+							}
+						}
+					}
+				}
+			}
+			nClose += len(closes)
+			for _, c := range closes {
+				okc := false
+				for _, st := range stores {
+					if instrBefore(st, c) {
+						okc = true
+					}
+				}
+				if !okc {
+					bad = fmt.Sprintf("the close at %s is not preceded by a store to the error field", p.instrPos(c))
+				}
+			}
+			for _, st := range stores {
+				oks := false
+				for _, c := range closes {
+					if instrBefore(st, c) {
+						oks = true
+					}
+				}
+				if !oks {
+					bad = fmt.Sprintf("the store to the error field at %s is not followed by the close of the wake-up channel", p.instrPos(st))
+				}
+			}
+		}
+		if nClose == 0 && bad == "" {
+			bad = "no close of a channel field found"
+		}
+		publishOrder[fld] = bad
+		return bad
+	}
+	afterClosedRecv := func(ref ssa.Instruction, owner string) bool {
+		fn := ref.Parent()
+		for _, b := range fn.Blocks {
+			ifi, ok := b.Instrs[len(b.Instrs)-1].(*ssa.If)
+			if !ok {
+				continue
+			}
+			ex, ok := condRoot(ifi.Cond).(*ssa.Extract)
+			if !ok || ex.Index != 1 {
+				continue
+			}
+			rcv, ok := ex.Tuple.(*ssa.UnOp)
+			if !ok || rcv.Op != token.ARROW || !rcv.CommaOk {
+				continue
+			}
+			fa, ok := loadOf(rcv.X).(*ssa.FieldAddr)
+			if !ok || !strings.HasPrefix(fieldName(fa.X.Type(), fa.Field), owner+".") {
+				continue
+			}
+			// which successor is the not-ok edge
+			_, onTrue := normCond(ifi.Cond)
+			notOK := b.Succs[1]
+			if !onTrue {
+				notOK = b.Succs[0]
+			}
+			if len(notOK.Preds) == 1 && notOK.Dominates(ref.Block()) {
+				return true
+			}
+		}
+		return false
+	}
+	isException := func(ref ssa.Instruction, fld string) (bool, string) {
+		if !errField[fld] {
+			return false, ""
+		}
+		if _, isLoad := ref.(*ssa.UnOp); !isLoad {
+			return false, ""
+		}
+		owner := fld[:strings.LastIndex(fld, ".")]
+		if !afterClosedRecv(ref, owner) {
+			return false, ""
+		}
+		if bad := publishChecked(fld); bad != "" {
+			return false, "the unlocked read after the observed close is safe only if the error is published before the channel is closed: " + bad
+		}
+		return true, ""
 	}
 	r.rule("C19.guarded-by", "every access to bufPipe.buf / bufPipe.err happens with bufPipe's mutex held; UnchunkWriter.readers is closed only under readerMu and UnchunkWriter.closing only under closeMu (one reviewed exception)")
 	r.floor("C19.guarded-by", 8)
@@ -360,10 +485,10 @@ func checkC19(c *Ctx, p *Prog, r *Result) {
 							ok2 := st.Has(mu)
 							detail := "requires " + mu
 							if !ok2 {
-								if isException(fn, fld) {
-									if _, isLoad := ref.(*ssa.UnOp); isLoad {
-										ok2, detail = true, "reviewed exception: "+exceptionReason
-									}
+								if exc, why := isException(ref, fld); exc {
+									ok2, detail = true, "reviewed exception: "+exceptionReason
+								} else if why != "" {
+									detail += "; " + why
 								}
 							}
 							r.table(p, "C19.guarded-by", fmt.Sprintf("access #%d to %s in %s", k, fld, p.FuncName(fn)), p.instrPos(ref), ok2, detail)
